@@ -234,6 +234,27 @@ fn files(ctx: &Ctx) -> Vec<File> {
         }
         v.push(File { name: "sinkfrag-no-duration-signalling".into(), full: build(&fm).bytes, init: None, from: 0 });
     }
+    // fragmented, as a live muxer writes it: per-sample durations with the last sample of every run
+    // at duration 0 (not known yet), a decode time in every traf, a gap between the fragments
+    for i in 0..2 {
+        let mut fm = adv::kitchen_sink_frag(i);
+        let mut acc = vec![0u64; fm.tracks.len()];
+        for f in fm.frags.iter_mut() {
+            for tr in f.trafs.iter_mut() {
+                tr.trun_dur = true;
+                if let Some(last) = tr.samples.last_mut() {
+                    last.dur = 0;
+                }
+                let sum: u64 = tr.samples.iter().map(|s| s.dur as u64).sum();
+                let a = &mut acc[tr.track % fm.tracks.len().max(1)];
+                tr.tfdt = Some(((*a % 2) as u8, *a));
+                *a += sum + 300;
+            }
+        }
+        let b = build(&fm);
+        v.push(File { name: format!("sinkfrag{}-last-duration-0", i), full: b.bytes.clone(), init: None, from: 0 });
+        v.push(File { name: format!("segment{}-last-duration-0", i), full: b.segment.clone(), init: Some(b.bytes[..b.init_len].to_vec()), from: 0 });
+    }
     // movie header last, each moov leaf box in turn as the last box of the file
     for i in 0..3 {
         let mut m = adv::kitchen_sink(i);
